@@ -68,6 +68,9 @@ def model_args(cfg, hist):
         elif e[0] == 'load':
             hevs += [['save', 1], ['fresh'], ['load', nsave, 1]]
             nsave += 1
+        elif e[0] == 'load_nofac':
+            hevs += [['save', 0], ['load', nsave, 1]]     # Model/Kfac.v: a checkpoint without factors yields no ComputeInv, whoever loads it
+            nsave += 1
         elif e[0] == 'state_dict':
             pass
         else:
